@@ -151,3 +151,25 @@ def mc_chess(run, root_fens, depth, invariants, workers=8, tag="chess"):
         raise core.ToolError("reference model violates its own theorem %s:\n%s" % (res["violated"], res["output"][-2500:]))
     run.add_mc(res, {"MaxDepth": depth, "roots": root_fens, "invariants": invariants})
     return res
+
+
+ENGINE_ROOTS = ["8/8/4k3/8/2p5/8/3P1K2/7R w - - 0 1", "r3k2r/8/8/8/8/8/8/R3K2R w KQkq - 0 1", "4k3/P6P/8/8/8/8/p6p/4K3 w - - 0 1",
+                "rnbqkbnr/ppp1p1pp/8/3pPp2/8/8/PPPP1PPP/RNBQKBNR w KQkq f6 0 3", "r3k2r/8/8/8/8/8/8/R3K2R b KQkq - 0 1",
+                "8/8/1k6/8/2pP4/8/5BK1/8 b - d3 0 1", "r1bqkb1r/pppp1ppp/2n2n2/4p2Q/2B1P3/8/PPPP1PPP/RNB1K1NR w KQkq - 4 4"]
+
+
+def mc_engine(run, quick, tag):
+    """Exhaustive TLC run of the design-level Game model (Engine.tla): incremental hash / score / caches = reference
+    functions in every state, push = Chess!Apply, pop restores the saved state."""
+    roots = ENGINE_ROOTS[:5] if quick else ENGINE_ROOTS
+    path = gen.gen_roots(roots, "roots_engine_%s.json" % tag)
+    plies, nest = (1, 2) if quick else (2, 2)
+    cfg = os.path.join(core.BUILD, "cfg", "MC_Engine_%s.cfg" % tag)
+    os.makedirs(os.path.dirname(cfg), exist_ok=True)
+    with open(cfg, "w") as f:
+        f.write("SPECIFICATION Spec\nCONSTANTS Plies = %d  Nest = %d  Rescore = TRUE\nINVARIANT InvConsistent InvStack\nVIEW View\nCHECK_DEADLOCK FALSE\n" % (plies, nest))
+    res = core.tlc_mc("MC_Engine", cfg, workers=12, env={"ROOTS": path}, tag="engine-" + tag, heap="12g")
+    if res["violated"] or "Assert" in res["output"] and "violated" in res["output"]:
+        raise core.ToolError("Engine.tla (design-level model) violates %s:\n%s" % (res["violated"], res["output"][-1500:]))
+    res["output"] = ""
+    run.add_mc(res, {"Plies": plies, "Nest": nest, "roots": roots})
